@@ -329,6 +329,8 @@ fn cmd_fault(m: &HashMap<String, String>) -> i32 {
     let max_pos: u64 = arg(m, "positions", 100);
     let large = m.contains_key("large");
     let reopen_heavy = m.contains_key("reopen-heavy");
+    let read_faults = m.contains_key("read-faults");
+    fault::READ_FAULTS.store(read_faults, std::sync::atomic::Ordering::Relaxed);
     let only: Option<(u64, bool)> = m
         .get("idx")
         .and_then(|i| i.parse().ok())
@@ -398,7 +400,7 @@ fn cmd_fault(m: &HashMap<String, String>) -> i32 {
                     std::fs::write(
                         &rpath,
                         serde_json::to_string(&json!({"driver": "fault", "seed": seed, "nops": nops,
-                            "large": large, "reopen_heavy": reopen_heavy, "idx": idx, "sticky": sticky}))
+                            "large": large, "reopen_heavy": reopen_heavy, "read_faults": read_faults, "idx": idx, "sticky": sticky}))
                         .unwrap(),
                     )
                     .unwrap();
@@ -406,7 +408,7 @@ fn cmd_fault(m: &HashMap<String, String>) -> i32 {
                 results.push(json!({"seed": run_no, "wseed": seed, "idx": idx, "sticky": sticky,
                     "status": o.status, "fired": o.fired, "events": o.lines.len(),
                     "trace": out.join(format!("trace_{:04}.ndjson", chunk)).to_string_lossy(),
-                    "replay": rpath.to_string_lossy(), "nops": nops, "large": large, "reopen_heavy": reopen_heavy,
+                    "replay": rpath.to_string_lossy(), "nops": nops, "large": large, "reopen_heavy": reopen_heavy, "read_faults": read_faults,
                     "panics": Vec::<String>::new()}));
                 lines.extend(o.lines);
                 in_chunk += 1;
